@@ -37,6 +37,13 @@ def deviations():
     devs += [dict(maxlev=2), dict(maxlev=3)]
     devs += [dict(norm=1), dict(norm=2)]
     devs += [dict(abstol=1e-8, reltol=-1.0), dict(abstol=-1.0, reltol=1e-8), dict(abstol=1e-6, reltol=1e-6)]
+    # which tolerance ends the iteration, and where in the residual history, decides what a wrong stop test gets away with
+    for a in (1e-4, 1e-5, 1e-6, 1e-7, 1e-9, 1e-10):
+        devs.append(dict(abstol=a, reltol=-1.0))
+    for r_ in (1e-4, 1e-6, 1e-10):
+        devs.append(dict(abstol=-1.0, reltol=r_))
+    devs += [dict(abstol=1e-6, reltol=1e-10), dict(abstol=1e-10, reltol=1e-6), dict(abstol=1e-5, reltol=1e-9, norm=1),
+             dict(abstol=1e-7, reltol=-1.0, norm=2), dict(abstol=-1.0, reltol=1e-7, norm=1)]
     devs += [dict(nr_exp=5, ntheta_exp=6), dict(div2=1), dict(aniso=2), dict(aniso=3), dict(ntheta_exp=6), dict(nr_exp=5)]
     devs += [dict(threads=4, tfactor=0.5), dict(threads=3, tfactor=1.0)]
     return devs
